@@ -1,4 +1,5 @@
 import ButlerModel.Model.Conc
+import ButlerModel.Model.Lock
 /-! Handler for interleaved schedules (C20): `conc run <init items> S <steps>`. -/
 namespace Driver.C20
 open Conc
@@ -67,8 +68,24 @@ def showOpt (keys : List Nat) (f : Nat → Option Nat) : String :=
   let xs := (sorted keys).filterMap fun k => (f k).map fun v => s!"{k}@{v}"
   if xs.isEmpty then "-" else ",".intercalate xs
 
+def whoStr : Option Lock.Who → String
+  | none => "-"
+  | some .a => "A"
+  | some .b => "B"
+
 def handle (toks : List String) : String :=
   match toks with
+  | ["lock", "order"] =>
+    -- the order in which the model undoes a failed block
+    ",".intercalate (Lock.sourceOrder.map fun st => match st with | .undo => "undo" | .unlock => "unlock")
+  | ["lock", order, k] =>
+    let steps : Option (List Lock.AStep) := (order.splitOn ",").mapM fun t =>
+      if t == "undo" then some Lock.AStep.undo else if t == "unlock" then some Lock.AStep.unlock else none
+    match steps, k.toNat? with
+    | some steps, some k =>
+      let s := Lock.exec steps k false Lock.start
+      s!"row={whoStr s.row} file={whoStr s.file}"
+    | _, _ => "bad-op"
   | "run" :: rest =>
     let initT := rest.takeWhile (· != "S")
     let stepT := (rest.dropWhile (· != "S")).drop 1
